@@ -90,9 +90,33 @@ enum Real<C: PixelColor> {
 
 fn history<C: Col + ColorMapping>(ctx: &mut Ctx, rng: &mut Rng, palette: &[C]) {
     let flags = (rng.chance(1, 2), rng.chance(1, 2));
-    let mut d = MockDisplay::<C>::new();
-    // a fresh display has both checks enabled (documented default): half of the histories with both
-    // checks on rely on that default instead of calling the setters
+    let mut m = Model::default();
+    let mut trace: Vec<String> = Vec::new();
+    // constructors: new(), default(), from_points() (pre-filled cells), and a display that went
+    // through Clone; every one of them starts with both checks enabled (documented default)
+    let mut d = match rng.below(6) {
+        0 => {
+            trace.push("MockDisplay::default()".into());
+            MockDisplay::<C>::default()
+        }
+        1 | 2 => {
+            let c = *rng.pick(palette);
+            let k = rng.usizer(0, 6);
+            let pts: Vec<(i32, i32)> = (0..k).map(|_| (rng.i32r(0, N - 1), rng.i32r(0, N - 1))).collect();
+            for p in &pts {
+                m.cells.insert(*p, c.to_u32());
+            }
+            trace.push(format!("MockDisplay::from_points({:?}, {:#x})", pts, c.to_u32()));
+            MockDisplay::<C>::from_points(pts.iter().map(|p| Point::new(p.0, p.1)), c)
+        }
+        3 => {
+            trace.push("MockDisplay::new().clone()".into());
+            #[allow(clippy::redundant_clone)]
+            MockDisplay::<C>::new().clone()
+        }
+        _ => MockDisplay::<C>::new(),
+    };
+    // half of the histories with both checks on rely on the default instead of calling the setters
     let use_defaults = flags == (false, false) && rng.chance(1, 2);
     if !use_defaults {
         d.set_allow_overdraw(flags.0);
@@ -100,7 +124,6 @@ fn history<C: Col + ColorMapping>(ctx: &mut Ctx, rng: &mut Rng, palette: &[C]) {
     } else {
         ctx.count("histories_relying_on_default_flags", 1);
     }
-    let mut m = Model::default();
     // operations concentrate on a small hot area so that repeated points are frequent
     // (placed so that the first and the last rows/columns of the display are reached as well)
     let (hw, hh) = (rng.u32r(2, 12), rng.u32r(2, 12));
@@ -111,7 +134,6 @@ fn history<C: Col + ColorMapping>(ctx: &mut Ctx, rng: &mut Rng, palette: &[C]) {
     };
     let hot = rect(edge(rng, hw), edge(rng, hh), hw, hh);
     let n_ops = rng.usizer(1, 10);
-    let mut trace: Vec<String> = Vec::new();
     let cname = C::name();
     let pick = |rng: &mut Rng| *rng.pick(palette);
     for _ in 0..n_ops {
